@@ -1,7 +1,7 @@
-CONSTANTS CursorOnDropped = FALSE
+CONSTANTS CursorOnDropped = TRUE
           MaxPos = 3
           MaxN = 3
 INIT Init
 NEXT Next
-INVARIANTS EmitCase
+INVARIANTS AlgRefinesProperty
 CHECK_DEADLOCK FALSE
